@@ -174,8 +174,8 @@ def run(tier, seed):
     if thorough:
         plans = [(1, 200, 8), (2, 150, 5), (3, 120, 4), (4, 100, 3), (8, 40, 2), (16, 20, 1)]
     nstress = 0
+    traces = []
     for limit in (4096, 24):
-        allev = []
         for i, (thr, epochs, ops) in enumerate(plans):
             p = vlib.run_tool([vlib.rv("rv-alloc"), "stress", str(thr), str(epochs), str(ops), str(limit)],
                               timeout=600, env={"VERIF_SEED": str(seed * 1000 + i)})
@@ -187,13 +187,11 @@ def run(tier, seed):
             if nstress == 0:
                 run.sample({"leg": "V", "event": ev[1] if len(ev) > 1 else ev[0]})
             nstress += 1
-            # block ids are per run: keep them apart when runs are concatenated (each run ends with an 'end' event)
-            for e in ev:
-                for o in e.get("ops", []):
-                    o["blk"] += (i + 1) * 100000000
-                    o["thr"] += (i + 1) * 100
-            allev += ev
-        validate_events(run, allev, "st-%d" % limit, "alloc-stress")
+            traces.append((ev, "st%d-%d" % (thr, limit)))
+    # one TLC run per stress run (a joint trace makes every state carry every block of every run), in parallel
+    import concurrent.futures as cf
+    with cf.ThreadPoolExecutor(max_workers=8) as ex:
+        list(ex.map(lambda t: validate_events(run, t[0], t[1], "alloc-stress"), traces))
 
     # ---- binding is not vacuous: a corrupted trace must be rejected
     p = vlib.run_tool([vlib.rv("rv-alloc"), "stress", "2", "6", "3", "4096"], timeout=120, env={"VERIF_SEED": "7"})
